@@ -120,6 +120,8 @@ class Runner:
         S.fresh()
         ref = {}      # identity -> {run: payload}
         self.old = {}  # identity -> payloads that were overwritten or removed later
+        self.handed = []   # every Value object a load handed out in this history
+        self.mutations = 0
         problems, obs, mops = [], [], []
         blob_ids = {}
         for op in ops:
@@ -155,7 +157,7 @@ class Runner:
                 return ['ok'], [(['remove', rid] + [nm(x) for x in op[2:]], ['ok'])]
             if kind == 'update':
                 return self.update(op, ref, problems, blob_ids)
-            if kind == 'load':
+            if kind in ('load', 'load-mutate'):
                 return self.load(op, ref, problems, blob_ids)
             if kind == 'dump':
                 o = c08.Runner.step(self, op, None, problems, None, 'direct')
@@ -265,7 +267,24 @@ class Runner:
                     touched = got  # replaced without asking the foreman for the primary entry
                     mops.append((head, ['ok', 'no-get-request']))
                 out.append(None if touched is None else short(getattr(touched, 'payload', '<no payload>')))
+                n0 = len(problems)
                 self.judge(op, ident, run, m, want, touched, ref, problems, self.old.get(ident, []))
+                if touched is not None:
+                    if len(problems) > n0 and any(touched is x for x in self.handed):
+                        sig, what = problems[-1]
+                        problems[-1] = (sig, what + ' -- it is the very object an earlier load handed out '
+                                                    '(loads must return independent copies of what was stored)')
+                    self.handed.append(touched)
+                    if op[0] == 'load-mutate':
+                        # the reader works on its input in place, as algorithms do with loaded state vectors
+                        self.mutations += 1
+                        p = getattr(touched, 'payload', None)
+                        if isinstance(p, list):
+                            p.append(['appended by the reader', self.mutations])
+                        elif isinstance(p, dict):
+                            p['changed by the reader'] = self.mutations
+                        touched.payload = ['replaced by the reader', self.mutations, short(p)]
+                        touched.scratch = self.mutations
         # the metric state vector: walked by the real _load after the algorithm's own state vectors
         name, ver, keys = self.msv
         for k, kv in keys:
@@ -380,7 +399,11 @@ def gen_history(r, counter):
             if r.random() < 0.35:
                 # load -> store the SAME cells again with other contents -> load (regressions rewrite run 0;
                 # a re-run rewrites its run id): the second load must see the new contents
-                ops.extend([['load', u[1], u[2], u[3], u[4], u[5], shape_of(u)], rewrite_of(u),
+                ops.extend([[r.choice(['load', 'load-mutate']), u[1], u[2], u[3], u[4], u[5], shape_of(u)], rewrite_of(u),
+                            ['load', r.choice([u[1], 99]), u[2], u[3], u[4], u[5], shape_of(u)]])
+            elif r.random() < 0.3:
+                # a reader changes what it loaded in place; later loads must still see what was stored
+                ops.extend([['load-mutate', r.choice([u[1], 99]), u[2], u[3], u[4], u[5], shape_of(u)],
                             ['load', r.choice([u[1], 99]), u[2], u[3], u[4], u[5], shape_of(u)]])
         elif x < 0.50 and fresh_targets and any(o[0] == 'update' for o in ops):
             # a target introduced by dawgie.db.add() (not by its first update), then used like the others
@@ -393,7 +416,8 @@ def gen_history(r, counter):
                         ['load', u0[1], t, u0[3], u0[4], u0[5], shape_of(u0)]])
             tg.append(t)
         elif x < 0.78:
-            ops.append(['load', r.choice(runs + [7]), r.choice(tg), r.choice(tk), r.choice(al), r.choice(ve), svs(False)])
+            ops.append([r.choice(['load', 'load', 'load-mutate']), r.choice(runs + [7]), r.choice(tg), r.choice(tk),
+                        r.choice(al), r.choice(ve), svs(False)])
         elif x < 0.88:
             ops.append(['remove', r.choice(runs), r.choice(tg), r.choice(tk), r.choice(al), r.choice(sv), r.choice(va)])
         elif x < 0.92:
@@ -474,6 +498,19 @@ CORPUS = [
      ['load', 7, 'X1', 't', 'A', V1, [['sv', V1, [['v', V1]]]]], ['close'], ['open'],
      ['load', 1, 'X', 't', 'A', V1, [['sv', V1, [['v', V1]]]]], ['load', 1, 'X1', 't', 'A', V1, [['sv', V1, [['v', V1]]]]],
      ['load', 9, 'X', 't', 'A', V1, [['sv', V1, [['v', V1]]]]], ['load', 1, 'X', 't', 'A2', V1, [['sv', V1, [['v', V1]]]]], ['dump']],
+    # a reader changes the loaded objects in place (list appended to, attribute replaced); every later load --
+    # same key, the fall-back from another run, another target whose content was equal when stored, after a
+    # further update, after close/open -- must hand out what was stored, not the reader's object
+    [['open'], ['update', 3, 'X', 't', 'A', V1, [['sv', V1, [['v', V1, [1, 2, 3]], ['v1', V1, 'text']]]]],
+     ['update', 3, 'X1', 't', 'A', V1, [['sv', V1, [['v', V1, [1, 2, 3]]]]]],
+     ['load-mutate', 3, 'X', 't', 'A', V1, [['sv', V1, [['v', V1], ['v1', V1]]]]],
+     ['load', 3, 'X', 't', 'A', V1, [['sv', V1, [['v', V1], ['v1', V1]]]]], ['load', 8, 'X', 't', 'A', V1, [['sv', V1, [['v', V1]]]]],
+     ['load', 3, 'X1', 't', 'A', V1, [['sv', V1, [['v', V1]]]]],
+     ['update', 5, 'X', 't', 'A', V1, [['sv', V1, [['v', V1, {'k': [4]}]]]]],
+     ['load-mutate', 5, 'X', 't', 'A', V1, [['sv', V1, [['v', V1]]]]], ['load', 9, 'X', 't', 'A', V1, [['sv', V1, [['v', V1]]]]],
+     ['load', 3, 'X', 't', 'A', V1, [['sv', V1, [['v', V1]]]]], ['close'], ['open'],
+     ['load-mutate', 3, 'X1', 't', 'A', V1, [['sv', V1, [['v', V1]]]]], ['load', 3, 'X1', 't', 'A', V1, [['sv', V1, [['v', V1]]]]],
+     ['load', 3, 'X', 't', 'A', V1, [['sv', V1, [['v', V1], ['v1', V1]]]]], ['dump']],
     # more tasks than targets when the target is added
     [['open'], ['update', 1, 'X', 't', 'A', V1, [['sv', V1, [['v', V1, 'x t']]]]],
      ['update', 1, 'X', 't2', 'A', V1, [['sv', V1, [['v', V1, 'x t2']]]]], ['add', 'N'],
@@ -493,7 +530,7 @@ def check_history(rn, res, ops, tag, lines, pending):
     lines.append(to_line(mops))
     pending.append((ops, mops))
     kinds = [o[0] for o in ops]
-    loaded = [x for op, o in zip(ops, obs) if op[0] == 'load' and o[0] == 'ok' for x in o[1]]
+    loaded = [x for op, o in zip(ops, obs) if op[0] in ('load', 'load-mutate') and o[0] == 'ok' for x in o[1]]
     res.case(json.dumps(ops), nontrivial=kinds.count('update') >= 1 and any(x is not None for x in loaded),
              sample={'ops': ops[:6], 'observed': obs[:6]} if tag == 'random' else None)
     res.count('history:' + tag)
